@@ -31,6 +31,7 @@ type Draw struct {
 	Off    int    `json:"off"`
 	Rule   int    `json:"rule"`
 	Img    int    `json:"img"`
+	Z      int    `json:"z"` // canvas z-index set before the draw (0 in the C12 programs)
 }
 
 type SubJ struct {
@@ -295,19 +296,17 @@ func paint(h *Header, name string) canvas.Paint {
 	for _, g := range h.RGrads {
 		if g == name { // a radial gradient (concentric circles around the page centre) whose stops all have the colour
 			ctr := canvas.Point{X: float64(h.W) / 2, Y: float64(h.H) / 2}
-			rg := canvas.NewRadialGradient(ctr, 0, ctr, float64(h.W+h.H))
-			rg.Add(0.0, col)
-			rg.Add(0.5, col)
-			rg.Add(1.0, col)
+			rg := canvas.NewRadialGradient(ctr, 0, ctr, float64(h.H)/2) // t runs beyond 1 on the page; stops do not span [0,1]
+			rg.Add(0.25, col)
+			rg.Add(0.75, col)
 			return canvas.Paint{Gradient: rg}
 		}
 	}
 	for _, g := range h.Grads {
 		if g == name { // a linear gradient across the page whose stops all have the colour
 			lg := canvas.NewLinearGradient(canvas.Point{X: 0, Y: 0}, canvas.Point{X: float64(h.W), Y: 0})
-			lg.Add(0.0, col)
-			lg.Add(0.5, col)
-			lg.Add(1.0, col)
+			lg.Add(0.25, col) // stops do not span [0,1]: before the first and after the last stop the colour is that stop's
+			lg.Add(0.75, col)
 			return canvas.Paint{Gradient: lg}
 		}
 	}
@@ -332,6 +331,7 @@ func testImage(h *Header) image.Image {
 
 // applyDraw performs the Context calls of one draw.
 func applyDraw(h *Header, ctx *canvas.Context, d Draw) {
+	ctx.SetZIndex(d.Z)
 	ctx.SetCoordSystem(canvas.CoordSystem(d.Cs))
 	ctx.SetView(mat6(h.Views[d.View-1]))
 	if d.Fill == "none" {
